@@ -27,6 +27,7 @@ MANIFEST = {
     "technique": "Lean 4 inductive invariants over a small-step model (all schedules), model replayed against the real code under controlled schedules (yield injection), refutation of the pre-fix code by kernel evaluation of concrete schedules",
 }
 TRUSTED = [
+    "timer-pool integrity is observed, not modelled: the harness (GOMAXPROCS(1)) drains internal/timer's pool around every case and reports a timer that was Put twice (digest field timers=ok|dup)",
     "sync/atomic operations are sequentially consistent; code between two instrumented sites executes with the preceding site",
     "the harness plays the target's single worker (UnboundedMailbox.Dequeue then ReceiveContext.Response) on a bare PID: no dispatcher, no actor system, so nothing else touches the package-level pools",
     "a caller's deadline is modelled as a step; the harness realises it by cancelling the Ask's context exactly when the caller is stepped into its select with an empty response channel",
@@ -34,7 +35,7 @@ TRUSTED = [
 RULE = ("1-3 caller threads with 1-4 Asks each (distinct request ids), one worker thread with as many handle ops, schedules of 0-60 entries "
         "(thread steps and deadline steps) then round-robin completion; non-trivial = harness produced a trace; distinct by (case, output)")
 
-INPKG = ["actor/zz_verif_c15.go", "actor/zz_verif_c15g.go"]
+INPKG = ["actor/zz_verif_c15.go", "actor/zz_verif_c15g.go", "internal/timer/zz_verif_c15.go"]
 INSTRUMENT = ["actor/pid.go", "actor/receive_context.go", "internal/timer/timer.go", "actor/actor_system.go",
               "actor/grain_context.go", "actor/grain_engine.go", "actor/grain_mailbox.go"]
 INSTRUMENT_ARGS = {
@@ -277,6 +278,8 @@ def oracle(case, impl, judge):
         return None
     if impl.startswith("CRASH"):
         return "harness crashed: " + impl
+    if "timers=dup" in impl:
+        return "bad timer the same *time.Timer was put into the Ask timer pool twice: two later Asks share one deadline"
     if judge is None or impl.startswith("HANG"):
         judge = _judge_grain(case, impl) if case.startswith("gask") else _judge(case, impl)
     return None if judge.startswith("ok") else judge
